@@ -46,9 +46,11 @@ namespace
     {
       auto ta = va.get_type ();
       auto tb = vb.get_type ();
-      if (ta < tb)
+      // VA is TOS (B), VB is the value below (A); A < B iff A's type
+      // sorts first, which is also how sequences and stacks order.
+      if (tb < ta)
 	return pred_result (want == cmp_result::less);
-      else if (tb < ta)
+      else if (ta < tb)
 	return pred_result (want == cmp_result::greater);
     }
 
